@@ -114,6 +114,23 @@ Theorem C01_cli_invocations_equivalent :
 Proof. exact cli_equivalent. Qed.
 Print Assumptions C01_cli_invocations_equivalent.
 
+(** ... and however the request is SPELLED when it is handed over as a proto
+    (-proto, -proto_file, a library client's Query.SubReq): requests that differ
+    only in encoding - path and/or prefix in the deprecated [element] strings,
+    the first name as [prefix.origin], an [elem] prefix with an [element] path
+    - are registered under the same index path [tgt :: ql], walk the same
+    snapshot path and give the same ONCE view as the [elem] request the flag
+    style builds, for every configuration and every set of target streams *)
+Theorem C01_cli_request_encodings_equivalent :
+  forall (e : req_enc) (tgt : string) (ql : path),
+    tgt <> "" -> Forall (fun s => s <> "") ql ->
+    let r := encode_request e tgt ql in
+    sub_queries r = [tgt :: ql]
+    /\ complete_path (cq_prefix r) (cq_path r) = Some ql
+    /\ forall cfg ss, pipeline_once cfg ss r = pipeline_once cfg ss (encode_request EncElem tgt ql).
+Proof. exact cli_request_encodings_equivalent. Qed.
+Print Assumptions C01_cli_request_encodings_equivalent.
+
 (** every configured target is registered with the target manager (with its
     own request, carrying its name) and with the cache *)
 Theorem C01_collector_registers_every_target :
